@@ -107,6 +107,7 @@ func init() {
 			g(rep, "TAIL-OFFSET", func() { ruleTAILOFFSET(p, rep) })
 			g(rep, "POSITION-COHERENT", func() { rulePOSITIONCOHERENT(p, rep) })
 			g(rep, "READ-CONSUME", func() { ruleREADCONSUME(p, rep) })
+			g(rep, "ADVANCE-BETWEEN-EVENTS", func() { ruleADVANCEBETWEENEVENTS(p, rep) })
 		},
 	})
 	register(&propertyDef{
@@ -186,6 +187,7 @@ func init() {
 			g(rep, "RELOAD-AGREE", func() { ruleRELOADAGREE(p, rep) })
 			g(rep, "PERSIST-MEMORY-AGREE", func() { rulePERSISTMEMORYAGREE(p, rep) })
 			g(rep, "RELOAD-EVERY-PATH", func() { ruleRELOADEVERYPATH(p, rep) })
+			g(rep, "MAPPED-BOUND-EXACT", func() { ruleMAPPEDBOUNDEXACT(p, rep) })
 			g(rep, "PAGE-HEADER-AGREE", func() { rulePAGEHEADERAGREE(p, rep) })
 			g(rep, "MMAP-COVERS-FILE", func() { ruleMMAPCOVERSFILE(p, rep) })
 		},
@@ -197,6 +199,7 @@ func init() {
 		run: func(p *Program, rep *Report, tier string) {
 			g(rep, "SNAPSHOT-AFTER-ALLOC", func() { ruleSNAPSHOTAFTERALLOC(p, rep) })
 			g(rep, "FILE-END-AGREE", func() { ruleFILEENDAGREE(p, rep) })
+			g(rep, "REGION-CODEC", func() { ruleREGIONCODEC(p, rep) })
 			g(rep, "CAPACITY", func() { ruleCAPACITY(p, rep) })
 			g(rep, "DEFERFREE", func() { ruleDEFERFREE(p, rep) })
 			g(rep, "UNDO-JOURNAL", func() { ruleUNDOJOURNAL(p, rep) })
@@ -214,6 +217,7 @@ func init() {
 			g(rep, "ACK-SCAN-FROM-HEAD", func() { ruleACKSCANFROMHEAD(p, rep) })
 			g(rep, "PQTX", func() { rulePQTX(p, rep) })
 			g(rep, "CLEANUP-MAY-OVERFLOW", func() { ruleCLEANUPMAYOVERFLOW(p, rep) })
+			g(rep, "EVENT-SIZE-SOURCE", func() { ruleEVENTSIZESOURCE(p, rep) })
 			g(rep, "EVENT-BOUNDARY", func() { ruleEVENTBOUNDARY(p, rep) })
 			g(rep, "ERRDISC", func() { ruleERRDISC(p, rep, "pq", false) })
 		},
@@ -287,6 +291,7 @@ func init() {
 			g(rep, "READ-START-AGREE", func() { ruleREADSTARTAGREE(p, rep) })
 			g(rep, "PQTX", func() { rulePQTX(p, rep) })
 			g(rep, "CALLBACK-ARG", func() { ruleCALLBACKARG(p, rep) })
+			g(rep, "CALLBACK-LAST", func() { ruleCALLBACKLAST(p, rep) })
 			g(rep, "EVENT-BOUNDARY", func() { ruleEVENTBOUNDARY(p, rep) })
 		},
 	})
